@@ -51,8 +51,8 @@ def mismatch(world, what, detail):
     """outcome class of a mutation differs from what the model demands"""
     if world.focus == 'C01':
         raise Violation('C01.outcome', what, detail)
-    if world.focus == 'C03':
-        world.diverged = True              # C03 keeps judging its model-free clauses (see engine)
+    if world.focus in ('C03', 'C05'):
+        world.diverged = True              # C03 / C05 keep judging their model-free clauses (see engine)
         return
     raise Precondition('C01.outcome %s %r' % (what, detail))
 
